@@ -221,7 +221,10 @@ def check_query(q, funcs, enums, tier, logdir):
         res["z3"] = [v[0] for v in verdicts]
         if tier == "thorough" and shutil.which("cvc5"):
             out2, dt2 = run_solver(text.replace("(set-logic ALL)", "(set-logic QF_BV)"), "cvc5", cap)
-            v2 = parse_solver_output(out2, len(items) + 1, bool(inputs))
+            v2 = parse_solver_output(out2, len(items) + 1, False)
+            if v2 is None:
+                res.update(verdict="inconclusive", why="cvc5 output not understood / error / timeout: %s" % out2[-300:].replace("\n", " "))
+                return res
             res["cvc5"] = [v[0] for v in v2]
             res["cvc5_s"] = round(dt2, 2)
             if [v[0] for v in v2] != [v[0] for v in verdicts]:
